@@ -32,7 +32,9 @@ def gen_user_case(rng, tier, cyclic=False):
         out = sinks or ids
     nf = rng.choice([0, 0, 0, 1, 2]) if not cyclic else 0
     failing = {i: rng.choice(list(plans.EXC)) for i in rng.sample(calls, min(nf, len(calls)))}
-    return {"spec": spec, "output": out, "workers": rng.choice([2, 3, len(ids) + 2] if hub else [1, 2, 3, len(ids) + 2]),
+    # None = `max_workers` left at its default (documented: "based on the core count")
+    return {"spec": spec, "output": out,
+            "workers": rng.choice([2, 3, len(ids) + 2] if hub else [1, 2, 3, len(ids) + 2, 1, 2, 3, len(ids) + 2, None]),
             "max_errors": rng.choice([0, 0, 1, None]), "scheduler": rng.choice(["default", "random"]),
             "failing": {str(k): v for k, v in failing.items()}}
 
@@ -160,7 +162,7 @@ def monitor_user(case, r):
     # C10 at the level of uberjob.run: max_errors as the caller passed it
     fset = {int(k) for k in case["failing"]}
     if fset and not cyclic:
-        w = case["workers"]
+        w = case["workers"] if case["workers"] is not None else 32      # a default "based on the core count": at least never more than 32 threads here
         k = case["max_errors"]
         runnable = {i for i in needed & calls if not any(a in fset for a in nx.ancestors(G, i))}
         E = [i for i in needed & calls if i in fset and not any(a in fset for a in nx.ancestors(G, i))]
